@@ -286,7 +286,16 @@ class ExprMixin:
         st.assume(f"(<= (seq.len (ditems {r.t})) (+ (seq.len (ditems {a})) (seq.len (ditems {b}))))")
         st.assume(f"(>= (seq.len (ditems {r.t})) (seq.len (ditems {a})))")
         st.assume(f"(>= (seq.len (ditems {r.t})) (seq.len (ditems {b})))")
-        self.trusted_used.add("dict merge {**a, **b}: lookup prefers b, then a; size bounds (library axiom)")
+        j, q = fresh_name("mj"), fresh_name("mq")
+        ib, ia, ir = f"(ditems {b})", f"(ditems {a})", f"(ditems {r.t})"
+        # item-level facts (same library semantics, stated on items so that they trigger on item terms):
+        # every item of b is an item of the result; every item of the result comes from b, or from a under a key b lacks
+        st.assume(f"(forall (({j} Int)) (! (=> (and (dict_wf {b}) (<= 0 {j}) (< {j} (seq.len {ib}))) (exists (({q} Int)) (and (<= 0 {q}) (< {q} (seq.len {ir})) "
+                  f"(= (pkey (seq.nth {ir} {q})) (pkey (seq.nth {ib} {j}))) (= (pval (seq.nth {ir} {q})) (pval (seq.nth {ib} {j})))))) :pattern ((seq.nth {ib} {j}))))")
+        st.assume(f"(forall (({q} Int)) (! (=> (and (dict_wf {a}) (dict_wf {b}) (<= 0 {q}) (< {q} (seq.len {ir}))) (or "
+                  f"(exists (({j} Int)) (and (<= 0 {j}) (< {j} (seq.len {ib})) (= (pkey (seq.nth {ir} {q})) (pkey (seq.nth {ib} {j}))) (= (pval (seq.nth {ir} {q})) (pval (seq.nth {ib} {j}))))) "
+                  f"(exists (({j} Int)) (and (<= 0 {j}) (< {j} (seq.len {ia})) (not (dhas {b} (pkey (seq.nth {ia} {j})))) (= (pkey (seq.nth {ir} {q})) (pkey (seq.nth {ia} {j}))) (= (pval (seq.nth {ir} {q})) (pval (seq.nth {ia} {j}))))))) :pattern ((seq.nth {ir} {q}))))")
+        self.trusted_used.add("dict merge {**a, **b}: lookup prefers b, then a; size bounds; items of b carried over, every item from b or from a (library axiom)")
         return r.t
 
     def e_JoinedStr(self, st, n):
